@@ -92,6 +92,40 @@ def block_function(module: str, qualname: str, test_contains: str, label: str) -
     return _make(module, qualname, fn, body, [], label, hits[0])
 
 
+def stmts_function(module: str, qualname: str, first_contains: str, count: int, label: str) -> Step:
+    """`count` consecutive statements of one statement list of the function, starting at the unique statement whose
+    source contains `first_contains`, as a function of the names they use (fall-through statements only)."""
+    fn = extract.find_def(module, qualname)
+    hits = []
+    for n in ast.walk(fn):
+        for field in ("body", "orelse", "finalbody"):
+            blk = getattr(n, field, None)
+            if isinstance(blk, list):
+                for i, st in enumerate(blk):
+                    if isinstance(st, (ast.Assign, ast.AugAssign, ast.AnnAssign, ast.Expr)) and first_contains in ast.unparse(st):
+                        hits.append((blk, i))
+    if len(hits) != 1:
+        raise ExtractionError(f"{qualname}: {len(hits)} statements contain `{first_contains}` (expected exactly one)")
+    blk, i = hits[0]
+    if i + count > len(blk):
+        raise ExtractionError(f"{qualname}: fewer than {count} statements follow `{first_contains}`")
+    return _make(module, qualname, fn, blk[i:i + count], [], label, blk[i])
+
+
+def range_function(module: str, qualname: str, locate, label: str) -> Step:
+    """statements blk[i:j] chosen by `locate(fn) -> (blk, i, j)` (a structural description of the block, not its text)"""
+    fn = extract.find_def(module, qualname)
+    try:
+        blk, i, j = locate(fn)
+    except ExtractionError:
+        raise
+    except Exception as e:  # noqa: BLE001
+        raise ExtractionError(f"{qualname}: block for {label} not found ({type(e).__name__}: {e})") from e
+    if not (0 <= i < j <= len(blk)):
+        raise ExtractionError(f"{qualname}: empty block for {label}")
+    return _make(module, qualname, fn, blk[i:j], [], label, blk[i])
+
+
 def _make(module: str, qualname: str, fn: ast.FunctionDef, stmts: list[ast.stmt], targets: list[str], label: str, anchor: ast.AST) -> Step:
     for st in stmts:
         for n in ast.walk(st):
